@@ -302,6 +302,9 @@ func formatterCorpus(e *Engine, seed int) []string {
 		"packet P { In { u8 a, // inner\n }, repeat In2 { string s, }, }",
 		"packet P { u16 l @lengthOf(b) `len doc`, c @calculatedFrom(\"crc\") `sum doc`, u32 d @calculatedFrom(\"x\"), string b, }",
 		"packet P { u8 a `line one\nline two`, }",
+		// a documentation literal with a line break on every declaration that can carry one
+		"MetaData M { u8 m `meta\ndoc`, m r `ref\ndoc`, }\nroot packet P { u16 l @lengthOf(b) `len\ndoc`, string b `dyn\ndoc`, u32 c @calculatedFrom(\"crc\") `sum\ndoc`, Foo x `obj\ndoc`, repeat Foo `rep\ndoc`, char[4] f `fix\ndoc`, }\npacket Foo { u8 a `basic\ndoc`, In { u8 q `inner\ndoc`, m mm `used\ndoc`, }, }",
+		"root packet P { @lengthOf(b) u16 l `len\n  doc`, string b, @calculatedFrom(\"crc\") u32 c `sum\n\tdoc`, }",
 		"root packet P { string k, match k as b { [\"a\", 1, \"b\", 2] : A, }, }\npacket A { }",
 		"packet   P   {   u8   x  ,   }   packet Q{u8 y,}",
 	} {
